@@ -1319,7 +1319,11 @@ impl<P, T> TrieViewMut<'_, P, T> {
     /// # }
     /// ```
     pub fn remove(&mut self) -> Option<T> {
-        self.node_mut()?.value.take()
+        let value = self.node_mut()?.value.take();
+        if value.is_some() {
+            self.table.dec_count();
+        }
+        value
     }
 
     /// Set the value of the node currently pointed at. This operation fails if the current view
@@ -1371,7 +1375,13 @@ impl<P, T> TrieViewMut<'_, P, T> {
     /// ```
     pub fn set(&mut self, value: T) -> Result<Option<T>, T> {
         match self.node_mut() {
-            Some(n) => Ok(n.value.replace(value)),
+            Some(n) => {
+                let old = n.value.replace(value);
+                if old.is_none() {
+                    self.table.inc_count();
+                }
+                Ok(old)
+            }
             None => Err(value),
         }
     }
